@@ -12,3 +12,8 @@ pub fn tail_keeper(v: &[u64]) -> u64 {
     let r: u64 = it.remainder().iter().sum();
     r + it.map(|c| c[0]).sum::<u64>()
 }
+
+/// R-INFCANON (C19): a write to the `infinity` flag of a short-Weierstrass affine point outside its constructors.
+pub fn infinity_writer<P: ark_ec::short_weierstrass::SWCurveConfig>(p: &mut ark_ec::short_weierstrass::Affine<P>) {
+    p.infinity = true;
+}
